@@ -4,10 +4,10 @@
    to meet the contract and compared with the real FileSet.copy on every run. *)
 From Pydra Require Import Base.Prelude Base.PyPath Model.Mount Model.CopyFiles Spec.CopyFiles Proofs.CopyFiles.
 
-(* for every mount table, target directory, initial file system and list of output values: if the
-   workflow directory is empty and the returned files exist, collection succeeds and the result meets
-   the spec [collected] (shape, class, inside the directory, content, sources intact, hard link or
-   independent copy as the mounts allow, distinct sources -> distinct destinations) *)
+(* for every mount table, target directory, initial file system (whatever the directory already holds) and
+   list of output values whose files exist: collection succeeds and the result meets the spec [collected]
+   (shape, class, inside the directory, content, sources intact, hard link or independent copy as the
+   mounts allow, distinct sources -> distinct destinations) *)
 Definition C33_full_statement : Prop :=
   forall (tab : table) (dest : string) (fs0 : fsT) (fields : list value),
     sources_exist fs0 fields ->
@@ -18,8 +18,7 @@ Theorem C33_full : C33_full_statement.
 Proof. exact c33_full. Qed.
 Print Assumptions C33_full.
 
-(* the same for any implementation of FileSet.copy that meets the contract, whenever it succeeds
-   (no assumption on the target directory) *)
+(* the same for any implementation of FileSet.copy that meets the contract, whenever it succeeds *)
 Theorem C33_collected :
   forall copy_one, copy_contract copy_one ->
   forall tab dest fs0 fields outs fs1 av,
